@@ -554,4 +554,383 @@ theorem addCore_spec : ∀ d t x y p, Inv d t → inSq t.x0 t.y0 t.lv x y → p 
             · simp only [holds]
               exact ⟨hin, hp, Or.inl (by rw [hs]; exact hb')⟩
 
+/-! ### grouping cores by identical block mask -/
+
+theorem dictOr_keys (g : List (Nat × Nat)) (k v : Nat) :
+    (dictOr g k v).map Prod.fst = if k ∈ g.map Prod.fst then g.map Prod.fst else g.map Prod.fst ++ [k] := by
+  induction g with
+  | nil => simp [dictOr]
+  | cons a g ih =>
+    obtain ⟨k', v'⟩ := a
+    simp only [dictOr]
+    by_cases h : k' = k
+    · subst h; simp
+    · simp only [if_neg h, List.map_cons, ih, List.mem_cons]
+      have : ¬ k = k' := fun e => h e.symm
+      simp only [this, false_or]
+      split <;> simp
+
+theorem dictOr_nodup (g : List (Nat × Nat)) (k v : Nat) (h : (g.map Prod.fst).Nodup) :
+    ((dictOr g k v).map Prod.fst).Nodup := by
+  rw [dictOr_keys]
+  split
+  · exact h
+  · rename_i hk
+    rw [List.nodup_append]
+    refine ⟨h, by simp, ?_⟩
+    intro a ha b hb
+    simp at hb; subst hb
+    intro e; subst e; exact hk ha
+
+theorem dictOr_mem (g : List (Nat × Nat)) (k v m cm : Nat) (hnd : (g.map Prod.fst).Nodup) :
+    (m, cm) ∈ dictOr g k v →
+      (m ≠ k ∧ (m, cm) ∈ g) ∨
+      (m = k ∧ ∃ cm0, ((k, cm0) ∈ g ∨ (cm0 = 0 ∧ k ∉ g.map Prod.fst)) ∧ cm = cm0 ||| v) := by
+  induction g with
+  | nil =>
+    simp only [dictOr, List.mem_singleton, Prod.mk.injEq]
+    rintro ⟨rfl, rfl⟩
+    exact Or.inr ⟨rfl, 0, Or.inr ⟨rfl, by simp⟩, rfl⟩
+  | cons a g ih =>
+    obtain ⟨k', v'⟩ := a
+    simp only [List.map_cons, List.nodup_cons] at hnd
+    simp only [dictOr]
+    by_cases h : k' = k
+    · subst h
+      simp only [if_true, List.mem_cons, Prod.mk.injEq]
+      rintro (⟨rfl, rfl⟩ | hm)
+      · exact Or.inr ⟨rfl, v', Or.inl (Or.inl ⟨trivial, rfl⟩), rfl⟩
+      · by_cases hmk : m = k'
+        · subst hmk
+          exact absurd (List.mem_map_of_mem (f := Prod.fst) hm) hnd.1
+        · exact Or.inl ⟨hmk, Or.inr hm⟩
+    · simp only [if_neg h, List.mem_cons, Prod.mk.injEq]
+      rintro (⟨rfl, rfl⟩ | hm)
+      · exact Or.inl ⟨h, Or.inl ⟨rfl, rfl⟩⟩
+      · rcases ih hnd.2 hm with ⟨a, b⟩ | ⟨a, cm0, b, c⟩
+        · exact Or.inl ⟨a, Or.inr b⟩
+        · refine Or.inr ⟨a, cm0, ?_, c⟩
+          rcases b with b | ⟨b1, b2⟩
+          · exact Or.inl (Or.inr b)
+          · refine Or.inr ⟨b1, ?_⟩
+            simp only [List.map_cons, List.mem_cons, not_or]
+            exact ⟨fun e => h e.symm, b2⟩
+
+theorem dictOr_mem_other (g : List (Nat × Nat)) (k v m cm : Nat) (h : (m, cm) ∈ g) (hne : m ≠ k) :
+    (m, cm) ∈ dictOr g k v := by
+  induction g with
+  | nil => simp at h
+  | cons a g ih =>
+    obtain ⟨k', v'⟩ := a
+    simp only [dictOr]
+    simp only [List.mem_cons, Prod.mk.injEq] at h
+    by_cases hk : k' = k
+    · subst hk
+      rcases h with ⟨rfl, _⟩ | h
+      · exact absurd rfl hne
+      · simp only [if_true, List.mem_cons]; exact Or.inr h
+    · simp only [if_neg hk, List.mem_cons, Prod.mk.injEq]
+      rcases h with h | h
+      · exact Or.inl h
+      · exact Or.inr (ih h)
+
+theorem dictOr_mem_key (g : List (Nat × Nat)) (k v : Nat) : ∃ cm, (k, cm) ∈ dictOr g k v := by
+  induction g with
+  | nil => exact ⟨0 ||| v, by simp [dictOr]⟩
+  | cons a g ih =>
+    obtain ⟨k', v'⟩ := a
+    simp only [dictOr]
+    by_cases hk : k' = k
+    · subst hk; exact ⟨v' ||| v, by simp⟩
+    · obtain ⟨cm, h⟩ := ih
+      exact ⟨cm, by simp only [if_neg hk, List.mem_cons]; exact Or.inr h⟩
+
+/-- state of the grouping loop after cores `0 .. k-1` of `L` -/
+def GroupOK (L : List Nat) (k : Nat) (g : List (Nat × Nat)) : Prop :=
+  (g.map Prod.fst).Nodup ∧
+  (∀ m cm, (m, cm) ∈ g → m ≠ 0 ∧ (∃ q, cm.testBit q = true) ∧
+    ∀ q, cm.testBit q = true ↔ (q < k ∧ L[q]? = some m)) ∧
+  (∀ q, q < k → ∀ m, L[q]? = some m → m ≠ 0 → ∃ cm, (m, cm) ∈ g)
+
+theorem groupOK_step (L : List Nat) (k m : Nat) (g : List (Nat × Nat)) (hk : L[k]? = some m)
+    (h : GroupOK L k g) : GroupOK L (k + 1) (if m != 0 then dictOr g m (1 <<< k) else g) := by
+  obtain ⟨ha, hb, hc⟩ := h
+  by_cases hm : m = 0
+  · subst hm
+    simp only [bne_self_eq_false, Bool.false_eq_true, if_false]
+    refine ⟨ha, ?_, ?_⟩
+    · intro m cm hmem
+      obtain ⟨b1, b2, b3⟩ := hb m cm hmem
+      refine ⟨b1, b2, ?_⟩
+      intro q; rw [b3]
+      constructor
+      · rintro ⟨a, b⟩; exact ⟨by omega, b⟩
+      · rintro ⟨a, b⟩
+        by_cases hqk : q = k
+        · subst hqk; rw [hk] at b; cases b; exact absurd rfl b1
+        · exact ⟨by omega, b⟩
+    · intro q hq m' hm' hne
+      by_cases hqk : q = k
+      · subst hqk; rw [hk] at hm'; cases hm'; exact absurd rfl hne
+      · exact hc q (by omega) m' hm' hne
+  · have hmb : (m != 0) = true := by simpa using hm
+    rw [if_pos hmb]
+    refine ⟨dictOr_nodup g m _ ha, ?_, ?_⟩
+    · intro m' cm' hmem
+      rcases dictOr_mem g m _ m' cm' ha hmem with ⟨hne, hg⟩ | ⟨rfl, cm0, hcm0, rfl⟩
+      · obtain ⟨b1, b2, b3⟩ := hb m' cm' hg
+        refine ⟨b1, b2, ?_⟩
+        intro q; rw [b3]
+        constructor
+        · rintro ⟨a, b⟩; exact ⟨by omega, b⟩
+        · rintro ⟨a, b⟩
+          by_cases hqk : q = k
+          · subst hqk; rw [hk] at b; cases b; exact absurd rfl hne
+          · exact ⟨by omega, b⟩
+      · refine ⟨hm, ⟨k, by rw [testBit_or_bit]; simp⟩, ?_⟩
+        intro q
+        rw [testBit_or_bit]
+        simp only [Bool.or_eq_true, decide_eq_true_eq]
+        have hcm0' : cm0.testBit q = true ↔ (q < k ∧ L[q]? = some m') := by
+          rcases hcm0 with h | ⟨rfl, hnk⟩
+          · exact (hb m' cm0 h).2.2 q
+          · simp only [Nat.zero_testBit, Bool.false_eq_true, false_iff]
+            rintro ⟨a, b⟩
+            obtain ⟨cm, hcm⟩ := hc q a m' b hm
+            exact hnk (List.mem_map_of_mem (f := Prod.fst) hcm)
+        rw [hcm0']
+        constructor
+        · rintro (⟨a, b⟩ | rfl)
+          · exact ⟨by omega, b⟩
+          · exact ⟨by omega, hk⟩
+        · rintro ⟨a, b⟩
+          by_cases hqk : k = q
+          · exact Or.inr hqk
+          · exact Or.inl ⟨by omega, b⟩
+    · intro q hq m' hm' hne
+      by_cases hmm : m' = m
+      · subst hmm; exact dictOr_mem_key g m' _
+      · have hqk : q ≠ k := by
+          intro e; subst e; rw [hk] at hm'; cases hm'; exact hmm rfl
+        obtain ⟨cm, hcm⟩ := hc q (by omega) m' hm' hne
+        exact ⟨cm, dictOr_mem_other g m _ m' cm hcm hmm⟩
+
+theorem groupCores_spec (L : List Nat) : ∀ (rest : List Nat) (k : Nat) (g : List (Nat × Nat)),
+    (∃ pre, L = pre ++ rest ∧ pre.length = k) → GroupOK L k g →
+    GroupOK L L.length (groupCores rest k g)
+  | [], k, g, ⟨pre, h1, h2⟩, h => by
+    simp at h1; subst h1; subst h2; exact h
+  | m :: rest, k, g, ⟨pre, h1, h2⟩, h => by
+    simp only [groupCores]
+    apply groupCores_spec L rest (k + 1)
+    · exact ⟨pre ++ [m], by simp [h1], by simp [h2]⟩
+    · apply groupOK_step L k m g _ h
+      subst h1; subst h2; simp
+
+theorem groupCores_ok (L : List Nat) : GroupOK L L.length (groupCores L 0 []) :=
+  groupCores_spec L L 0 [] ⟨[], rfl, rfl⟩ ⟨by simp, by simp, by intro q hq; omega⟩
+/-! ### counting selections in the emitted list -/
+
+theorem count_nodup_keys (pred : Nat × Nat → Bool) (k : Nat) : ∀ (g : List (Nat × Nat)),
+    (g.map Prod.fst).Nodup → (∀ mc, mc ∈ g → pred mc = true → mc.1 = k) →
+    ((∃ mc, mc ∈ g ∧ pred mc = true) → g.countP pred = 1) ∧
+    ((¬ ∃ mc, mc ∈ g ∧ pred mc = true) → g.countP pred = 0)
+  | [], _, _ => by simp
+  | a :: g, hnd, hk => by
+    simp only [List.map_cons, List.nodup_cons] at hnd
+    have ih := count_nodup_keys pred k g hnd.2 (fun mc h => hk mc (List.mem_cons_of_mem _ h))
+    by_cases ha : pred a = true
+    · have hno : ¬ ∃ mc, mc ∈ g ∧ pred mc = true := by
+        rintro ⟨mc, h1, h2⟩
+        have e1 := hk mc (List.mem_cons_of_mem _ h1) h2
+        have e2 := hk a (List.mem_cons_self) ha
+        exact hnd.1 (by rw [e2, ← e1]; exact List.mem_map_of_mem (f := Prod.fst) h1)
+      constructor
+      · intro _; rw [List.countP_cons_of_pos ha, ih.2 hno]
+      · intro h; exact absurd ⟨a, List.mem_cons_self, ha⟩ h
+    · rw [List.countP_cons_of_neg ha]
+      constructor
+      · rintro ⟨mc, h1, h2⟩
+        rcases List.mem_cons.1 h1 with rfl | h1
+        · exact absurd h2 ha
+        · exact ih.1 ⟨mc, h1, h2⟩
+      · intro h
+        exact ih.2 (fun ⟨mc, h1, h2⟩ => h ⟨mc, List.mem_cons_of_mem _ h1, h2⟩)
+
+theorem sum_single (f : Nat → Nat) (k : Nat) : ∀ (l : List Nat), l.Nodup →
+    (∀ i, i ∈ l → i ≠ k → f i = 0) → (l.map f).sum = if k ∈ l then f k else 0
+  | [], _, _ => by simp
+  | a :: l, hnd, h0 => by
+    simp only [List.nodup_cons] at hnd
+    have ih := sum_single f k l hnd.2 (fun i hi => h0 i (List.mem_cons_of_mem _ hi))
+    simp only [List.map_cons, List.sum_cons, ih, List.mem_cons]
+    by_cases hak : a = k
+    · subst hak
+      simp [hnd.1]
+    · have : ¬ k = a := fun e => hak e.symm
+      simp only [this, false_or]
+      rw [h0 a List.mem_cons_self hak]; simp
+
+theorem childOrder_nodup : childOrder.Nodup := by decide
+theorem childOrder_mem : ∀ i, i < 16 → i ∈ childOrder := by decide
+
+
+theorem getD_of_getElem? (ls : List Nat) (q m : Nat) (h : ls[q]? = some m) : ls.getD q 0 = m := by
+  simp [List.getD_eq_getElem?_getD, h]
+
+theorem getElem?_of_lt (ls : List Nat) (q : Nat) (h : q < ls.length) : ls[q]? = some (ls.getD q 0) := by
+  simp [List.getD_eq_getElem?_getD, List.getElem?_eq_getElem h]
+
+/-- the pairs a node emits for itself select core `p` of chip `(x, y)` exactly once
+when the chip is in the node's square and its block bit is set for `p`, else never -/
+theorem loc_count (x0 y0 lv : Nat) (ls : List Nat) (x y p : Nat) (hl : lv ≤ 3)
+    (hx : x0 % scale lv = 0) (hy : y0 % scale lv = 0) (hx1 : x0 + scale lv ≤ 256)
+    (hy1 : y0 + scale lv ≤ 256) (hlen : ls.length = 18) (hlt : ∀ q, ls.getD q 0 < 2 ^ 16) :
+    ((inSq x0 y0 lv x y ∧ p < 18 ∧ (ls.getD p 0).testBit (subIndex lv x y) = true) →
+      countSel ((sortPairs (groupCores ls 0 [])).map fun mc =>
+        ((x0 <<< 24 ||| y0 <<< 16 ||| lv <<< 16) ||| mc.1, mc.2)) x y p = 1) ∧
+    (¬ (inSq x0 y0 lv x y ∧ p < 18 ∧ (ls.getD p 0).testBit (subIndex lv x y) = true) →
+      countSel ((sortPairs (groupCores ls 0 [])).map fun mc =>
+        ((x0 <<< 24 ||| y0 <<< 16 ||| lv <<< 16) ||| mc.1, mc.2)) x y p = 0) := by
+  have G := groupCores_ok ls
+  rw [hlen] at G
+  obtain ⟨ga, gb, gc⟩ := G
+  generalize hg : groupCores ls 0 [] = g at ga gb gc
+  unfold countSel sortPairs
+  rw [List.countP_map, (List.mergeSort_perm g pairLe).countP_eq]
+  have hm16 : ∀ mc, mc ∈ g → mc.1 < 2 ^ 16 := by
+    intro mc hmc
+    obtain ⟨_, ⟨q, hq⟩, b3⟩ := gb mc.1 mc.2 hmc
+    have := ((b3 q).1 hq).2
+    rw [← getD_of_getElem? ls q mc.1 this]; exact hlt q
+  have hpred : ∀ mc, mc ∈ g →
+      ((((fun pr => sel pr x y p) ∘ fun mc : Nat × Nat =>
+          ((x0 <<< 24 ||| y0 <<< 16 ||| lv <<< 16) ||| mc.1, mc.2)) mc) = true ↔
+        (inSq x0 y0 lv x y ∧ mc.1.testBit (subIndex lv x y) = true ∧ p < 18 ∧ ls[p]? = some mc.1)) := by
+    intro mc hmc
+    simp only [Function.comp, sel, Bool.and_eq_true]
+    rw [selects_code x0 y0 lv mc.1 x y hl hx hy hx1 hy1 (hm16 mc hmc), (gb mc.1 mc.2 hmc).2.2 p]
+    constructor
+    · rintro ⟨⟨a, b⟩, c, e⟩; exact ⟨a, b, c, e⟩
+    · rintro ⟨a, b, c, e⟩; exact ⟨⟨a, b⟩, c, e⟩
+  have key := count_nodup_keys ((fun pr => sel pr x y p) ∘ fun mc : Nat × Nat =>
+      ((x0 <<< 24 ||| y0 <<< 16 ||| lv <<< 16) ||| mc.1, mc.2)) (ls.getD p 0) g ga
+    (by intro mc hmc hp; exact (getD_of_getElem? ls p mc.1 ((hpred mc hmc).1 hp).2.2.2).symm)
+  have hex : (∃ mc, mc ∈ g ∧ ((fun pr => sel pr x y p) ∘ fun mc : Nat × Nat =>
+      ((x0 <<< 24 ||| y0 <<< 16 ||| lv <<< 16) ||| mc.1, mc.2)) mc = true) ↔
+      (inSq x0 y0 lv x y ∧ p < 18 ∧ (ls.getD p 0).testBit (subIndex lv x y) = true) := by
+    constructor
+    · rintro ⟨mc, hmc, hp⟩
+      obtain ⟨a, b, c, e⟩ := (hpred mc hmc).1 hp
+      rw [getD_of_getElem? ls p mc.1 e]
+      exact ⟨a, c, b⟩
+    · rintro ⟨a, b, c⟩
+      have hpe := getElem?_of_lt ls p (by omega)
+      have hne : ls.getD p 0 ≠ 0 := by
+        intro e; rw [e] at c; simp at c
+      obtain ⟨cm, hcm⟩ := gc p b _ hpe hne
+      exact ⟨(ls.getD p 0, cm), hcm, (hpred _ hcm).2 ⟨a, c, b, hpe⟩⟩
+  rw [← hex]
+  exact key
+
+theorem lt_of_getD_some {α} (l : List (Option α)) (i : Nat) (c : α) (h : l.getD i none = some c) :
+    i < l.length := by
+  by_cases hi : i < l.length
+  · exact hi
+  · simp [List.getD_eq_getElem?_getD, List.getElem?_eq_none (Nat.le_of_not_lt hi)] at h
+
+theorem countSel_append (a b : List (Nat × Nat)) (x y p : Nat) :
+    countSel (a ++ b) x y p = countSel a x y p + countSel b x y p := by
+  simp [countSel, List.countP_append]
+
+/-- what one child contributes to the list of its parent -/
+def childEmit (d : Nat) (subs : List (Option RTree)) (i : Nat) : List (Nat × Nat) :=
+  match subs.getD i none with
+  | none => []
+  | some c => emit d c
+
+theorem emit_succ (d x0 y0 lv : Nat) (ls : List Nat) (subs : List (Option RTree)) :
+    emit (d + 1) (.mk x0 y0 lv ls subs) =
+      ((sortPairs (groupCores ls 0 [])).map fun mc =>
+        ((x0 <<< 24 ||| y0 <<< 16 ||| lv <<< 16) ||| mc.1, mc.2)) ++
+      (if lv < 3 then childOrder.flatMap (childEmit d subs) else []) := by
+  simp only [emit]; rfl
+
+theorem emit_count : ∀ d t, Inv d t → ∀ x y p,
+    (holds d t x y p → countSel (emit d t) x y p = 1) ∧
+    (¬ holds d t x y p → countSel (emit d t) x y p = 0)
+  | 0, t, h, _, _, _ => by simp [Inv] at h
+  | d + 1, .mk x0 y0 lv ls subs, hI, x, y, p => by
+    obtain ⟨⟨h1, hx, hy, hx1, hy1, hlen, hlt, hsl, hch⟩, hnf⟩ := hI
+    have hloc := loc_count x0 y0 lv ls x y p (by omega) hx hy hx1 hy1 hlen hlt
+    rw [emit_succ, countSel_append]
+    generalize hk : subIndex lv x y = k at hloc
+    have hk16 : k < 16 := by rw [← hk]; exact subIndex_lt ..
+    -- a child that holds the point is the child of the point's block
+    have hBin : ∀ i c, subs.getD i none = some c → holds d c x y p →
+        lv < 3 ∧ inSq x0 y0 lv x y ∧ k = i ∧ p < 18 := by
+      intro i c hic hh
+      have hi := lt_of_getD_some subs i c hic
+      have hl3 : lv < 3 := by
+        by_cases h3 : lv = 3
+        · have : subs.length = 0 := by rw [hsl, if_pos h3]
+          omega
+        · omega
+      have hi16 : i < 16 := by
+        have : subs.length = 16 := by rw [hsl, if_neg (by omega)]
+        omega
+      obtain ⟨a, b, c1, _⟩ := hch i c hic
+      have hclv : c.lv = lv + 1 := by have := Inv_lv d c c1; omega
+      obtain ⟨hsq, hp⟩ := holds_inSq d c x y p hh
+      rw [a, b, hclv, child_inSq x0 y0 lv i x y hl3 hx hy hi16] at hsq
+      exact ⟨hl3, hsq.1, by rw [← hk]; exact hsq.2, hp⟩
+    -- count of one child's list
+    have hchild : ∀ i,
+        ((∃ c, subs.getD i none = some c ∧ holds d c x y p) → countSel (childEmit d subs i) x y p = 1) ∧
+        ((¬ ∃ c, subs.getD i none = some c ∧ holds d c x y p) → countSel (childEmit d subs i) x y p = 0) := by
+      intro i
+      unfold childEmit
+      cases hsub : subs.getD i none with
+      | none => simp [countSel]
+      | some c =>
+        have ih := emit_count d c (hch i c hsub).2.2.1 x y p
+        constructor
+        · rintro ⟨c', e, h⟩; cases e; exact ih.1 h
+        · intro h; exact ih.2 (fun hh => h ⟨c, rfl, hh⟩)
+    have hrest :
+        countSel (if lv < 3 then childOrder.flatMap (childEmit d subs) else []) x y p =
+          countSel (childEmit d subs k) x y p := by
+      by_cases hl3 : lv < 3
+      · rw [if_pos hl3]
+        unfold countSel
+        rw [List.countP_flatMap]
+        have := sum_single (fun i => List.countP (fun pr => sel pr x y p) (childEmit d subs i)) k childOrder
+          childOrder_nodup (by
+            intro i _ hik
+            apply (hchild i).2
+            rintro ⟨c, e, h⟩
+            exact hik (hBin i c e h).2.2.1.symm)
+        rw [if_pos (childOrder_mem k hk16)] at this
+        exact this
+      · rw [if_neg hl3]
+        have h3 : lv = 3 := by omega
+        have hnil : subs = [] := List.eq_nil_of_length_eq_zero (by rw [hsl, if_pos h3])
+        subst hnil
+        simp [countSel, childEmit]
+    rw [hrest]
+    simp only [holds, hk]
+    constructor
+    · rintro ⟨a, b, hbit | hB⟩
+      · rw [hloc.1 ⟨a, b, hbit⟩, (hchild k).2]
+        rintro ⟨c, e, h⟩
+        exact (hch k c e).2.2.2 p hbit x y h
+      · by_cases hbit : (ls.getD p 0).testBit k = true
+        · obtain ⟨c, e, h⟩ := hB
+          exact absurd h ((hch k c e).2.2.2 p hbit x y)
+        · rw [hloc.2 (fun h => hbit h.2.2), (hchild k).1 hB]
+    · intro hno
+      rw [hloc.2 (fun h => hno ⟨h.1, h.2.1, Or.inl h.2.2⟩), (hchild k).2]
+      rintro ⟨c, e, h⟩
+      obtain ⟨_, a, _, b⟩ := hBin k c e h
+      exact hno ⟨a, b, Or.inr ⟨c, e, h⟩⟩
 end Rig.C12
